@@ -663,6 +663,11 @@ def r4(cx):
                         f = [e['f'] for e in pl['p'] if isinstance(e, dict) and 'f' in e][-1]
                         cx.site(desc + ' -> PrintContext.%s (fixed per built-in)' % f)
                         continue
+                    qsrc = Q.value_source(body, du, {'cp': pl}) if pl is not None else None
+                    if qsrc is not None and Q.callee_is(qsrc, ['yash_quote::quote']):
+                        n_q += 1
+                        cx.site(desc + ' -> quoted by yash_quote::quote')
+                        continue
                     held = None
                     for how, why in REVIEWED_TEXT.get(root, []):
                         ok = False
@@ -783,3 +788,61 @@ def r5(cx):
     cx.site('parse_long uses Option::from_str: %d' % len(fs))
     if not fs:
         cx.violation('yash_env::option::parse_long', 'parser-other-table', 'long option names are parsed by something other than Option::from_str', loc=_loc(pl))
+
+
+@RS.rule('C07.R1b', 'K-GUARD', 'bracket/brace pairs: the closer is searched AFTER the first opener (a stray earlier closer must not hide a later pair)')
+def r1b(cx):
+    import hirq as H
+    F = cx.F
+    fn = 'yash_quote::str_needs_quoting'
+    h = F.hir_of(fn)
+    cx.fn(fn)
+    loc = '%s:%s' % (h['file'], h['line'])
+    WHOLE_OK = {'{', '[', ':~'}        # searches that are meant to look at the whole string
+    SEARCH = ('find', 'contains', 'rfind', 'matches', 'match_indices', 'split', 'split_once', 'starts_with', 'ends_with')
+    n = 0
+    for x in H.walk(h['body']):
+        if x.get('k') != 'mcall' or x.get('name') not in SEARCH:
+            continue
+        recv = H.peel(x['recv'])
+        whole = recv.get('k') == 'local' and recv.get('name') == 's'
+        pat = H.lit_value(x['a'][0]) if x.get('a') else None
+        n += 1
+        cx.site('str_needs_quoting: %s(%r) on %s' % (x['name'], pat, 'the whole string' if whole else recv.get('k')))
+        if not whole:
+            continue
+        if x['name'] == 'rfind':
+            continue          # the last closer is after the first opener iff any closer is
+        if pat is None or pat not in WHOLE_OK:
+            cx.violation(fn, 'closer-searched-from-start:%s' % x['name'], 'str_needs_quoting searches the whole string with %s(%s): a closing '
+                         'bracket/brace has to be looked for after the opener (s[i + 1..]), otherwise an earlier stray closer hides a later '
+                         'complete pair and a string such as `]a[b]` is printed unquoted and re-read as a pathname pattern'
+                         % (x['name'], repr(pat) if pat is not None else 'a computed pattern'), loc=loc)
+    cx.floor(n, 4, 'text searches in str_needs_quoting')
+
+
+
+@RS.rule('C07.R4b', 'K-GUARD', 'typeset/export/readonly -p: the `--` separator is decided from the variable name itself, not from its quoted form')
+def r4b(cx):
+    F = cx.F
+    root = 'yash_builtin::typeset::print_variables::print_one'
+    b = F.body(root)
+    cx.fn(root)
+    du = Q.DefUse(b)
+    seps = []
+    for blk, j, s in b.stmts():
+        if s['k'] == 'assign' and s['rv']['k'] == 'use' and 'c' in s['rv']['o'] and '"-- "' in str(s['rv']['o'].get('c')):
+            seps.append((blk, j, s))
+    cx.require(seps, 'the "-- " separator literal was not found in print_one')
+    for blk, j, s in seps:
+        ok = False
+        for org, lab, e in Q.dominating_conditions(F, b, du, blk):
+            if org['k'] == 'call' and Q.callee_is(org['t'], [Q.re.compile(r'<impl str>::starts_with$')]) and lab == ('bool', True):
+                recv = Q.operand_name(b, du, org['t']['a'][0])
+                cx.site('print_one: "-- " chosen under starts_with on `%s` at %s' % (recv, b.loc(s)))
+                if recv == 'name':
+                    ok = True
+        if not ok:
+            cx.violation(root, 'separator-from-derived-text', 'the `--` that protects a variable name starting with `-` is decided from a '
+                         'string other than the name itself (e.g. its quoted form, which starts with a quote character): the printed '
+                         "`typeset -x '-a b'=..` is then re-read as options", loc=b.loc(s))
